@@ -301,7 +301,13 @@ pub enum HExpect {
 
 impl Session {
     pub fn create(version: Version, bufsize: Option<usize>) -> io::Result<Session> {
-        let (file, shared) = MonFile::new(Vec::new());
+        Session::create_over(version, bufsize, Vec::new())
+    }
+
+    /// Like `create`, on a store that already holds `old` (a recycled buffer, a file opened
+    /// without truncation): the new compound file is written over its beginning.
+    pub fn create_over(version: Version, bufsize: Option<usize>, old: Vec<u8>) -> io::Result<Session> {
+        let (file, shared) = MonFile::new(old);
         let cf = match (version, bufsize) {
             (Version::V4, Some(b)) => OpenOptions::new().max_buffer_size(b).create_with(file)?,
             (v, None) => CompoundFile::create_with_version(v, file)?,
